@@ -7,6 +7,10 @@ PY=/venv/bin/python
 if ! $PY -c "import hypothesis" 2>/dev/null; then
   /venv/bin/pip install --no-index --find-links /opt/veriftools/wheels hypothesis
 fi
+# optional coverage-guided tier of C17 (thorough only): atheris into /verif/.deps (git-ignored); skipped if unavailable
+if [ ! -d .deps/atheris ]; then
+  /venv/bin/pip install -q --no-index --find-links /opt/veriftools/wheels --target .deps atheris 2>/dev/null || echo "note: atheris not installed; the C17 thorough tier runs without its libFuzzer part"
+fi
 $PY - <<'PYEOF'
 import importlib, sys
 for m in ["hypothesis", "onnx", "numpy", "ml_dtypes", "sympy"]:
